@@ -529,8 +529,14 @@ def gen_manifest():
     sys.path.insert(0, VERIF)
     checks = []
     claimed = set()
+    allowed = None
+    cp = os.path.join(VERIF, "claimed.txt")
+    if os.path.exists(cp):
+        allowed = {l.strip() for l in open(cp) if l.strip() and not l.startswith("#")}
     for p in sorted(glob.glob(os.path.join(VERIF, "checks", "C*.py"))):
         pid = os.path.basename(p)[:-3]
+        if allowed is not None and pid not in allowed:
+            continue
         mod = importlib.import_module("checks.%s" % pid)
         m = mod.META
         claimed.add(pid)
